@@ -341,12 +341,13 @@ func (ds *dataSet) FindAof(left int64) *dataSetAof {
 	return ds.aofMap[left]
 }
 
-func (ds *dataSet) trimLastEmptyAof() {
+// trimLastEmptyAof removes the last segment if it is empty and returns it
+func (ds *dataSet) trimLastEmptyAof() *dataSetAof {
 	ds.mux.Lock()
 	defer ds.mux.Unlock()
 
 	if len(ds.aofSegs) == 0 {
-		return
+		return nil
 	}
 
 	aofLast := len(ds.aofSegs) - 1
@@ -354,7 +355,9 @@ func (ds *dataSet) trimLastEmptyAof() {
 	if lastAof.rtSize.Load() == 0 {
 		delete(ds.aofMap, lastAof.Left())
 		ds.aofSegs = ds.aofSegs[:aofLast]
+		return lastAof
 	}
+	return nil
 }
 
 func (ds *dataSet) IndexAof(offset int64) *dataSetAof {
